@@ -522,7 +522,50 @@ def r09_11(chk):
     chk.floor("R09.11", 1, "to_rich_dict")
 
 
+def r09_12(chk):
+    chk.rule("R09.12", "an operation documented as returning a NEW tree never hands back the receiver: in the methods of the new-tree table no `return self` (nor a return of a name bound to `self`) -- whatever shortcut makes re-rooting / pruning / unrooting unnecessary, the caller may edit the result in place (scale lengths, rename tips) and the receiver must not change with it")
+    m = chk.repo.module(TREE)
+    n = 0
+    for cname in ("TreeNode", "PhyloNode"):
+        ci = m.cls(cname)
+        for name in NEW_TREE_OPS:
+            fn = ci.methods.get(name)
+            if not isinstance(fn, ast.FunctionDef):
+                continue
+            n += 1
+            aliases = {"self"} | {st.targets[0].id for st in walk_no_nested(fn) if isinstance(st, ast.Assign) and len(st.targets) == 1 and isinstance(st.targets[0], ast.Name) and isinstance(st.value, ast.Name) and st.value.id == "self"}
+            bad = [r for r in walk_no_nested(fn) if isinstance(r, ast.Return) and isinstance(r.value, ast.Name) and r.value.id in aliases]
+            # a name that is bound to self on one path and to a fresh tree on another is still a leak on the first path
+            chk.decide(not bad, "R09.12", key(m, f"{cname}.{name}", "never returns the receiver"), m.loc(bad[0] if bad else fn), "no return of self", f"`{norm(bad[0]) if bad else ''}` (line {bad[0].lineno if bad else 0}) returns the tree the method was called on: t2 = t.{name}(...); t2.scale_branch_lengths() / a rename on t2 changes t")
+    chk.floor("R09.12", 10, "methods of the new-tree table")
+
+
+def r09_13(chk):
+    chk.rule("R09.13", "unrooted(): the length of the dissolved edge goes to EVERY kept child of the root, whatever the order of the children -- so it is added after the loop that finds the dissolved node, not inside it (inside, a kept child listed BEFORE the dissolved node is passed while the length is still unknown: (c:4,(a:1,b:2):3) became (c:4,a:1,b:2), a-c 8 -> 5)")
+    m = chk.repo.module(TREE)
+    q = "TreeNode.unrooted"
+    fn = m.func(q)
+    loops = [lp for lp in walk_no_nested(fn) if isinstance(lp, ast.For) and norm(lp.iter) == "self.children"]
+    if not loops:
+        raise AnalysisError(f"{q}: loop over self.children not found")
+    lp = loops[0]
+    sets = [st for st in ast.walk(lp) if isinstance(st, ast.Assign) and isinstance(st.targets[0], ast.Name) and isinstance(st.value, ast.Attribute) and st.value.attr == "length"]
+    if not sets:
+        raise AnalysisError(f"{q}: the removed length is not taken inside the loop")
+    rl = sets[0].targets[0].id
+    adds_in = [st for st in ast.walk(lp) if isinstance(st, ast.AugAssign) and isinstance(st.op, ast.Add) and any(isinstance(x, ast.Name) and x.id == rl for x in ast.walk(st.value))]
+    adds_all = [st for st in walk_no_nested(fn) if isinstance(st, ast.AugAssign) and isinstance(st.op, ast.Add) and any(isinstance(x, ast.Name) and x.id == rl for x in ast.walk(st.value))]
+    k = key(m, q, "removed length added after the children were scanned")
+    if adds_in:
+        chk.violation("R09.13", k, m.loc(adds_in[0]), f"`{norm(adds_in[0])}` sits inside the loop over self.children in which `{rl}` is found: a kept child that precedes the dissolved node does not receive the length")
+    else:
+        chk.decide(bool(adds_all), "R09.13", k, m.loc(adds_all[0] if adds_all else fn), f"`{rl}` is added in a pass after the loop", f"`{rl}` is never added to the kept children")
+    chk.floor("R09.13", 1, "unrooted")
+
+
 def run(chk):
+    r09_13(chk)
+    r09_12(chk)
     r09_11(chk)
     r09_10(chk)
     r09_9(chk)
